@@ -332,6 +332,7 @@ func c02Point(c *z80.CPU, m *flatMem, e *aluEnc, base *z80.States, dataAddr uint
 	// anything cached inside it must not refer back to the struct it was copied from
 	c.States = *base
 	c.AF.Hi, c.AF.Lo = a, f
+	m.m[c02CodeBase+uint16(len(e.code))] = a ^ v<<1 ^ f // the byte after the instruction varies (it must not matter)
 	c02SetLoc(c, m, e, dataAddr, v)
 	if e.loc == locA {
 		a = v
